@@ -383,6 +383,18 @@ impl FromSpecImpl<u64> for Uint256 {
     ensures
         /*[C08,C18 narrow.uint128]*/ r.0 as nat == n.0.v(),
 //%end
+// (the trait impls themselves are kept, unverified, only so that callers outside the mode-A scope still compile; their
+//  contract claims nothing about aborts: "if it fits, the value is preserved")
+impl From<Uint256> for u128 { #[verifier::external_body] fn from(n: Uint256) -> (r: Self) ensures n.0.v() < p128() ==> r as nat == n.0.v() { unimplemented!() } }
+impl FromSpecImpl<Uint256> for u128 {
+    open spec fn obeys_from_spec() -> bool { false }
+    open spec fn from_spec(n: Uint256) -> Self { arbitrary() }
+}
+impl From<Uint256> for Uint128 { #[verifier::external_body] fn from(n: Uint256) -> (r: Self) ensures n.0.v() < p128() ==> r.0 as nat == n.0.v() { unimplemented!() } }
+impl FromSpecImpl<Uint256> for Uint128 {
+    open spec fn obeys_from_spec() -> bool { false }
+    open spec fn from_spec(n: Uint256) -> Self { arbitrary() }
+}
 //%else
 impl From<Uint256> for u128 {
 //%fn packages/bignumber/src/math.rs | impl From<Uint256> for u128 | from
